@@ -51,7 +51,8 @@ def asmap(x, depth=1):
 
 class State:
     def __init__(self, tup):
-        (self.form, data, added, ext, extx, maxcase, mincase, mx, mn) = tup
+        (self.form, data, added, ext, extx, maxcase, mincase, mx, mn) = tup[:9]
+        self.xless = set(tup[9]) if len(tup) > 9 else set()       # cases that carry no abscissae (spec constant XLess)
         data = asmap(data, 2)
         ext, extx, maxcase, mincase = asmap(ext), asmap(extx), asmap(maxcase), asmap(mincase)
         mx, mn = asmap(mx, 2), asmap(mn, 2)
@@ -62,9 +63,11 @@ class State:
         self.cases = sorted(data.keys())
 
     def xmax(self, c):
-        return 10 * c + 1
+        return float("nan") if c in self.xless else 10 * c + 1
 
     def xmin(self, c):
+        if c in self.xless:
+            return float("nan")
         return 10 * c + 1 if self.form in ("one", "frf") else 10 * c + 2
 
 
@@ -72,6 +75,9 @@ def check_state(st, ext, ext_x, maxcase, mincase, mx, mn, lab2case, xs_of=None, 
     """Compare real members with the exported spec state.  Values exact; a label must name an added case that
     attains the stored value and the abscissa must be one at which that case attains it (ties: any)."""
     R = st.rows
+    if ext_x is None and st.xless:
+        import numpy as _np
+        ext_x = _np.full((len(R), 2), _np.nan)       # "no abscissa recorded at all" = every abscissa unknown
     for i, r in enumerate(R):
         for col in (0, 1):
             if st.form == "one":
@@ -136,15 +142,18 @@ def replay_extrema(states, leaf):
         mincase = ["case %d min r%d" % (c, i) for i in range(nr)]
         if st0.form == "one":
             mincase = None  # one-column form labels both columns from `maxcase`
+        if c in st0.xless:
+            x = None
         mm = SimpleNamespace(ext=e, ext_x=x)
-        given.append((c, mm, e.copy(), x.copy()))
+        given.append((c, mm, e.copy(), None if x is None else x.copy()))
         cla.extrema(cur, mm, maxcase, mincase, c - 1)
         st = states[(key_data, tuple(st0.added[: n + 1]))]
         msg = check_state(st, cur.ext, cur.ext_x, cur.maxcase, cur.mincase, cur.mx, cur.mn, lab2case)
         if msg is None:
             # the spec's AddCase leaves `data` UNCHANGED: a case's own max/min record is never written by later updates
             for cc, mmc, e0, x0 in given:
-                if not (np.array_equal(mmc.ext, e0, equal_nan=True) and np.array_equal(mmc.ext_x, x0, equal_nan=True)):
+                if not (np.array_equal(mmc.ext, e0, equal_nan=True) and
+                        ((mmc.ext_x is None and x0 is None) or (x0 is not None and mmc.ext_x is not None and np.array_equal(mmc.ext_x, x0, equal_nan=True)))):
                     msg = "the max/min record passed in for case %d was modified by a later update (aliasing)" % cc
         if msg is None and st0.form != "one":
             for i in range(nr):
@@ -290,10 +299,14 @@ def replay_form_extreme(states, leaf, use_case_order):
         res = DR.prepare_results("verif", "ev%d" % c)
         t, resp = _response(st0, c, present, nan_fill=False)
         resp_of[c] = (t, resp, present)
-        res.time_data_recovery({(1, 1, 1, 1): SimpleNamespace(resp=resp, t=t, h=1.0)}, None, "lc", DR, 1, 0, dosrs=False)
+        if c in st0.xless:
+            # an event whose maxima / minima come from an external source without abscissae (documented use of add_maxmin)
+            res.add_maxmin("cat", np.array([[val(st0.data[c][r][0]), val(st0.data[c][r][1])] for r in present]), "lc")
+        else:
+            res.time_data_recovery({(1, 1, 1, 1): SimpleNamespace(resp=resp, t=t, h=1.0)}, None, "lc", DR, 1, 0, dosrs=False)
         evs[c] = res
     import copy as _copy
-    snap = {c: _copy.deepcopy({k: getattr(evs[c]["cat"], k) for k in ("ext", "ext_x", "mx", "mn", "mx_x", "mn_x", "maxcase", "mincase")})
+    snap = {c: _copy.deepcopy({k: getattr(evs[c]["cat"], k, None) for k in ("ext", "ext_x", "mx", "mn", "mx_x", "mn_x", "maxcase", "mincase")})
             for c in evs}
     top = cla.DR_Results()
     order = st0.added
@@ -317,12 +330,14 @@ def replay_form_extreme(states, leaf, use_case_order):
     colmap = {c: j for j, c in enumerate(order)}
 
     def xs_of(cc, i, col):
+        if cc in st0.xless:
+            return [float("nan")]
         tt, rr, pres = resp_of[cc]
         ri = pres.index(want_rows[i])
         v = st0.data[cc][want_rows[i]][col]
         return [tt[k] for k in range(3) if rr[ri, k] == v]
 
-    msg = check_state(sub, e.ext[idx], e.ext_x[idx], [e.maxcase[i] for i in idx], [e.mincase[i] for i in idx],
+    msg = check_state(sub, e.ext[idx], None if e.ext_x is None else e.ext_x[idx], [e.maxcase[i] for i in idx], [e.mincase[i] for i in idx],
                       e.mx[idx], e.mn[idx], lab2case, xs_of, colmap)
     if msg is None and list(e.cases) != ["ev%d" % c for c in order]:
         msg = "cases = %r" % (e.cases,)
@@ -330,8 +345,8 @@ def replay_form_extreme(states, leaf, use_case_order):
     def parts_changed():
         for c in evs:
             for k, v0 in snap[c].items():
-                v1 = getattr(evs[c]["cat"], k)
-                same_ = (v0 == v1) if isinstance(v0, list) else np.array_equal(v0, v1, equal_nan=True)
+                v1 = getattr(evs[c]["cat"], k, None)
+                same_ = (v0 == v1) if (isinstance(v0, list) or v0 is None or v1 is None) else np.array_equal(v0, v1, equal_nan=True)
                 if not same_:
                     return "forming the envelope modified the tables of event ev%d (%s)" % (c, k)
         return None
@@ -347,7 +362,7 @@ def replay_form_extreme(states, leaf, use_case_order):
         e2 = top["extreme"]["cat"]
         for k, v0 in first.items():
             v1 = getattr(e2, k)
-            same_ = (v0 == v1) if isinstance(v0, list) else np.array_equal(v0, v1, equal_nan=True)
+            same_ = (v0 == v1) if (isinstance(v0, list) or v0 is None or v1 is None) else np.array_equal(v0, v1, equal_nan=True)
             if not same_:
                 msg = "a second form_extreme() gives a different envelope (%s)" % k
         msg = msg or parts_changed()
@@ -381,7 +396,7 @@ def part_A(run, alphas):
             has_nan = any(v[0] == NAN for c in st.cases for v in st.data[c].values())
             distinct_vals = len(set(fz(st.data[c]) for c in st.cases)) > 1
             jobs = [("extrema", lambda: replay_extrema(states, leaf))]
-            if not has_nan and st.form == "two":
+            if not has_nan and st.form == "two" and not st.xless:
                 jobs.append(("time_dr", lambda: replay_dr(states, leaf, "time", srs=(li % 5 == 0))))
             if st.form == "frf":
                 jobs = [("extrema", jobs[0][1]), ("frf_dr", lambda: replay_dr(states, leaf, "frf", False))]
@@ -433,7 +448,7 @@ def body(run: Run, replay):
         else:
             part_B(run)
         return
-    alphas = ["two1", "two2", "frf2", "one1", "one2", "one2n"]
+    alphas = ["two1", "two2", "frf2", "one1", "one2", "one2n", "two1x1", "two1x23", "one2x1"]
     if run.tier == "thorough":
         alphas.append("two1w")
     part_A(run, alphas)
